@@ -183,6 +183,20 @@ def build_targets(jt, shared, tmpdir, label):
             out.append(Target("hooked-module:dataclass-init:" + tcname, True, lambda ns: ns["D"], nd, npl, is_dc=True))
     nd, npl = namespace(shared, jt.jaxtyped(typechecker=None), fn_source()), namespace(shared, ident, fn_source())
     out.append(Target("function:typechecker=None", False, lambda ns: ns["f"], nd, npl))
+    if tmpdir is not None:
+        # a module hooked with the checker None whose function carries typing.no_type_check (the hook decorates innermost, so the mark sits on the
+        # wrapper): it must behave like the plain module whatever the switch says
+        header = MODULE_SOURCE.split("def _DEC(f):")[0] + "import typing\ndef _DEC(f):\n    return f\n"
+        src = header + fn_source(pre="@typing.no_type_check\n").replace("@_DEC\n", "")
+        hooked, plainm = "b19none_%s" % label, "b19noneplain_%s" % label
+        for name in (hooked, plainm):
+            with open(os.path.join(tmpdir, name + ".py"), "w") as fh:
+                fh.write(src)
+        importlib.invalidate_caches()
+        with jt.install_import_hook(hooked, None):
+            mh = importlib.import_module(hooked)
+        mp = importlib.import_module(plainm)
+        out.append(Target("hooked-module-None:no_type_check-function", False, lambda ns: ns["f"], vars(mh), vars(mp), always_plain=True))
     return out
 
 
